@@ -104,6 +104,7 @@ func (w *World) Run(ops []Op, omit, counters bool) *Case {
 			rt.Line(o.Line)
 		case "gc":
 			rt.Gc()
+		case "nop": // keeps the step numbering of a longer history
 		case "scan":
 			syncDir(dir, o.Dir, w.Srcs.Texts)
 			for _, e := range o.Dir {
@@ -204,7 +205,7 @@ func (w *World) Tables(ops []Op) (ctab, vtab string) {
 			}
 			r = vlib.Some(vlib.List(xs))
 		}
-		cs = append(cs, fmt.Sprintf("(%s, %d, %s)", vlib.Bytes(pr.p), pr.s, r))
+		cs = append(cs, fmt.Sprintf("(%s, %d, %s)", B(pr.p), pr.s, r))
 		if !ok {
 			continue
 		}
@@ -218,7 +219,7 @@ func (w *World) Tables(ops []Op) (ctab, vtab string) {
 			for i, e := range es {
 				xs[i] = CoqEffect(e)
 			}
-			vs = append(vs, fmt.Sprintf("(%s, %d, %d, %s)", vlib.Bytes(pr.p), pr.s, l, vlib.List(xs)))
+			vs = append(vs, fmt.Sprintf("(%s, %d, %d, %s)", B(pr.p), pr.s, l, vlib.List(xs)))
 		}
 	}
 	return vlib.List(cs), vlib.List(vs)
@@ -230,9 +231,9 @@ func (w *World) CoqOps(ops []Op) string {
 	for i, o := range ops {
 		switch o.K {
 		case "load":
-			xs[i] = vlib.App("OLoad", vlib.Bytes(o.Prog), strconv.Itoa(o.Src))
+			xs[i] = vlib.App("OLoad", B(o.Prog), strconv.Itoa(o.Src))
 		case "unload":
-			xs[i] = vlib.App("OUnload", vlib.Bytes(o.Prog))
+			xs[i] = vlib.App("OUnload", B(o.Prog))
 		case "line":
 			xs[i] = vlib.App("OLine", strconv.Itoa(w.LineID(o.Line)), vlib.Z(int64(i+1)))
 		case "gc":
@@ -254,6 +255,40 @@ func CoqSnaps(ss []Snap) string {
 
 // CoqLCase renders an LCase of Corr/LoaderRun.v.
 func (w *World) CoqLCase(id uint64, c *Case) string {
-	ct, vt := w.Tables(c.Ops)
-	return vlib.App("LCase", vlib.N(id), vlib.Bool(c.Omit), ct, vt, w.CoqOps(c.Ops), CoqSnaps(c.Snaps))
+	return WithSharing(func() string {
+		ct, vt := w.Tables(c.Ops)
+		return vlib.App("LCase", vlib.N(id), vlib.Bool(c.Omit), ct, vt, w.CoqOps(c.Ops), CoqSnaps(c.Snaps))
+	})
+}
+
+// CoqDOps renders scan/line steps for Run/DirScan.v.
+func (w *World) CoqDOps(ops []Op) string {
+	xs := make([]string, len(ops))
+	for i, o := range ops {
+		switch o.K {
+		case "scan":
+			es := make([]string, len(o.Dir))
+			for j, e := range o.Dir {
+				if e.Dir {
+					es[j] = "(" + B(e.Name) + ", Dir)"
+				} else {
+					es[j] = fmt.Sprintf("(%s, File %d)", B(e.Name), e.Src)
+				}
+			}
+			xs[i] = vlib.App("DScan", vlib.List(es))
+		case "line":
+			xs[i] = vlib.App("DLine", strconv.Itoa(w.LineID(o.Line)), vlib.Z(int64(i+1)))
+		default:
+			panic("CoqDOps: " + o.K)
+		}
+	}
+	return vlib.List(xs)
+}
+
+// CoqDCase renders a DCase of Corr/Run_C26.v.
+func (w *World) CoqDCase(id uint64, c *Case) string {
+	return WithSharing(func() string {
+		ct, vt := w.Tables(c.Ops)
+		return vlib.App("DCase", vlib.N(id), vlib.Bool(c.Omit), ct, vt, w.CoqDOps(c.Ops), CoqSnaps(c.Snaps))
+	})
 }
